@@ -255,14 +255,91 @@ def run_model(lines, nproc=None):
 
 
 # ------------------------------------------------------------------------------------------------
+# what the properties speak about
+
+def _hexlen(h):
+    if h in (".", "-"):
+        return 0
+    if h.startswith("rep:"):
+        x, n = h[4:].split("*")
+        return (len(x) // 2) * int(n)
+    return len(h) // 2
+
+
+def _sb_digits(tok):
+    """a str-or-bytes argument that is absent or consists of ASCII decimal digits only"""
+    if tok == "-":
+        return True
+    try:
+        raw = bytes.fromhex(tok[2:]) if tok[2:] not in ("", ".") else b""
+    except ValueError:
+        return False
+    return all(0x30 <= c <= 0x39 for c in raw)
+
+
+def outside_domain(line):
+    """True when *no* property says what this call must do: inputs the statements exclude (a block size below 1, a
+    requested MAC length outside 4..8, XOR operands of different lengths, the parity helper above 2**32, TDES helper
+    data that is not whole blocks or keys / IVs of no TDES size, Visa-scheme data above 255 bytes, PAN / PSN / PIN
+    text that is not decimal digits, a PSN that is not two digits, issuer keys of another size than 16 in the master
+    key derivation, tree parameters below 1).  There the code may refuse (ValueError / TypeError) where the model does
+    something else without any property being touched; see Ctx.run_cases."""
+    try:
+        w = line.split(); op, a = w[0], w[1:]
+        if op == "tools.xor":
+            return _hexlen(a[0]) != _hexlen(a[1])
+        if op == "tools.odd_parity":
+            return not (0 <= int(a[0]) < 2 ** 32)
+        if op == "tools.kcv":
+            return _hexlen(a[0]) not in (8, 16, 24)
+        if op == "tools.ecb":
+            return _hexlen(a[0]) not in (8, 16, 24) or _hexlen(a[1]) % 8 != 0
+        if op == "tools.cbc":
+            return _hexlen(a[0]) not in (8, 16, 24) or _hexlen(a[1]) != 8 or _hexlen(a[2]) % 8 != 0
+        if op in ("mac.pad1", "mac.pad2"):
+            return a[1] != "-" and int(a[1]) < 1
+        if op == "mac.mac3":
+            return _hexlen(a[0]) != 8 or _hexlen(a[1]) != 8 or (a[4] != "-" and not 4 <= int(a[4]) <= 8)
+        if op == "ac.generate_ac":
+            return a[3] != "-" and not 4 <= int(a[3]) <= 8
+        if op == "sm.command_mac":
+            return a[2] != "-" and not 4 <= int(a[2]) <= 8
+        if op in ("kd.mk_a", "kd.mk_b"):
+            return _hexlen(a[0]) != 16 or not _sb_digits(a[1]) or len(a[1]) <= 2 or not _sb_digits(a[2]) \
+                or (a[2] != "-" and _hexlen(a[2][2:]) != 2)
+        if op == "kd.tree_sk":
+            return int(a[2]) < 1 or int(a[3]) < 1
+        if op == "sm.encrypt":
+            return a[2] == "VISA" and _hexlen(a[1]) > 255
+        if op == "sm.vis_pin":
+            return not _sb_digits(a[1]) or not _sb_digits(a[2])
+        if op == "sm.iso2_pin":
+            return not _sb_digits(a[0])
+        if op == "cvn":
+            cls, m, r = a[0], a[6], a[7:]
+            if any(_hexlen(k) != 16 for k in a[1:4]) or not _sb_digits(a[4]) or len(a[4]) <= 2 or not _sb_digits(a[5]) \
+                    or (a[5] != "-" and _hexlen(a[5][2:]) not in (0, 2)):
+                return True
+            if m == "enc" and cls.startswith("Visa") and _hexlen(r[0]) > 255:
+                return True
+            if m == "pin" and (not _sb_digits(r[0]) or not _sb_digits(r[3])):
+                return True
+            return False
+    except Exception:  # noqa: BLE001  (a line this reader does not understand is judged as before)
+        return False
+    return False
+
+
+# ------------------------------------------------------------------------------------------------
 # cases and the run context
 
 class Case:
-    __slots__ = ("line", "call", "gen", "proj", "nontrivial", "note", "meta")
+    __slots__ = ("line", "call", "gen", "proj", "nontrivial", "note", "meta", "outside")
 
     def __init__(self, line, call, gen, proj="full", nontrivial=True, note=None, meta=None):
         self.line = line; self.call = call; self.gen = gen; self.proj = proj
         self.nontrivial = nontrivial; self.note = note; self.meta = meta
+        self.outside = False          # set by a generator whose *objects* (not the line) leave every property's domain
 
 
 class Ctx:
@@ -283,6 +360,8 @@ class Ctx:
         self.exhaustive_dims = []
         self.assumptions = []
         self.relational = collections.Counter()
+        self.outside_cases = 0        # cases no property speaks about (compared all the same; a refusal there is no violation)
+        self.outside_refusals = 0
         self.replayable = []          # (line, proj, model answer) of agreeing cases, for the shared-object session
         self.extra = {}
 
@@ -332,8 +411,17 @@ class Ctx:
                 self.distinct.add(hashlib.sha1(c.line.encode()).digest()[:10])
             if len(self.samples) < 6 and self.rng.random() < 0.02 or (len(self.samples) < 2):
                 self.samples.append({"op": c.line[:300], "model": w[:200], "pyemv": g[:200]})
-            if pg == pw and (len(self.replayable) < 1500 or (self.evaluations % 17 == 0 and len(self.replayable) < 6000)):
+            outside = c.outside or outside_domain(c.line)
+            if outside:
+                self.outside_cases += 1
+            if pg == pw and not outside and (len(self.replayable) < 1500 or (self.evaluations % 17 == 0 and len(self.replayable) < 6000)):
                 self.replayable.append((c.line, c.proj, w))
+            if pg != pw and outside and g.split()[:2] in (["err", "ValueError"], ["err", "TypeError"]):
+                # no property says what this call must do, and it is refused: nothing is violated, whatever the model does
+                self.outside_refusals += 1
+                if len(self.notes) < 40:
+                    self.notes.append(f"outside every property's domain, refused where the model answers otherwise: {c.line[:100]} -> {g[:40]} (model {w[:40]})")
+                continue
             if pg != pw:
                 if c.proj == "c17" and tag_only_ok(c, g, w):
                     self.notes.append(f"tag rendering differs within the stated relation: {c.line[:80]}")
